@@ -221,9 +221,16 @@ def tasks_clause(model, rep, funcs):
                 # no re-binding of the three sequences between _prep_iterators and the task loop
                 rebinds = [n for n in ast.walk(lp) if isinstance(n, ast.Assign) and n is not prep[0] and
                            any(norm_src(x) in names for t in n.targets for x in (t.elts if isinstance(t, ast.Tuple) else [t]))]
-                inner = [x for x in ast.walk(lp) if isinstance(x, ast.For) and x is not lp and "zip(" in norm_src(x.iter)]
-                zip_ok = len(inner) == 1 and all(nm in norm_src(inner[0].iter) for nm in names) and not any(isinstance(s, ast.Subscript) for s in ast.walk(inner[0].iter))
-                adds = [c for c in ast.walk(inner[0]) if isinstance(c, ast.Call) and isinstance(c.func, ast.Attribute) and c.func.attr == "add_task"] if inner else []
+                # the task call receives, position by position, the element of each of the three sequences at the place the inner loop is at: a zip loop
+                # (`for a, b, c in zip(xs, ys, zs)`) and an index loop (`for i in range(len(xs)): f(xs[i], ys[i], zs[i])`) have the same canonical form
+                MT_ = Matcher(f)
+                inner = [x for x in ast.walk(lp) if isinstance(x, ast.For) and x is not lp]
+                adds = [c for c in ast.walk(lp) if isinstance(c, ast.Call) and isinstance(c.func, ast.Attribute) and c.func.attr == "add_task"]
+                zip_ok = False
+                if len(adds) == 1 and len(inner) == 1 and any(x is adds[0] for x in ast.walk(inner[0])):
+                    got = [norm_src(MT_.expr(a_, keep=tuple(names))) for a_ in adds[0].args]
+                    want = [f"__elem__({nm})" for nm in names]
+                    zip_ok = [g_ for g_ in got if g_.startswith("__elem__(")] == want
                 ok = not rebinds and zip_ok and len(adds) == 1
                 det = f"rebinding of {names}: {[norm_src(r)[:70] for r in rebinds]}; zip ok: {zip_ok}; add_task calls: {len(adds)}"
                 if rebinds:
@@ -283,7 +290,8 @@ def accumulation_clause(model, rep, funcs):
         s = norm_src(f.node)
         rep.instance("S20", f.loc())
         ok = Matcher(f).all_of(["$src, $dst = _prep_slices(start, stop, shape, img.shape)", "$t = affine_transform(img, mtx, ...)",
-                                "$p = np.sum($t[$src], axis=0)", "return $dst[1:], $p"])[0]
+                                "$p = np.sum($t[$src], axis=0)", "return $dst[1:], $p"])[0] or \
+            Matcher(f).all_of(["$dst, $frag = _simulate_one(img, start, stop, mtx, shape, order)", "$p = np.sum($frag, axis=0)", "return $dst[1:], $p"])[0]
         rep.ob("S20", f.anchor, "the 2-D worker sums the clipped fragment along z and drops the z slice", ok, "", node=f.node, fn=f, clause="4 accumulation",
                stmt="def _simulate_2d_one")
     for name in ("_simulate_one", "_simulate_color_one", "_simulate_2d_one"):
@@ -292,6 +300,13 @@ def accumulation_clause(model, rep, funcs):
             continue
         at = [c for c in calls_in(f) if (dotted(c.func) or "").endswith("affine_transform")]
         rep.instance("S20", f.loc())
+        if not at and name != "_simulate_one" and Matcher(f).has("$dst, $frag = _simulate_one(img, start, stop, mtx, shape, order)"):
+            # the worker delegates the transform to the verified 3-D worker with its own arguments, unchanged
+            rep.ob("SLOT", f.anchor, "worker transforms the template with its matrix, zero fill, the simulator's spline order", True, "delegates to _simulate_one", node=f.node,
+                   fn=f, clause="4 accumulation", stmt=f"def {name} transform")
+            rep.ob("SLOT", f.anchor, "every pasted fragment is the output of the worker's affine_transform (no path returns the spline-filtered input itself)", True, "",
+                   node=f.node, fn=f, clause="4 accumulation", stmt=f"def {name} all paths transformed")
+            continue
         ok = len(at) == 1 and norm_src(kwarg(at[0], "mode") or ast.Constant(0)) == "'constant'" and norm_src(kwarg(at[0], "cval") or ast.Constant(1)) == "0.0" and \
             norm_src(kwarg(at[0], "order") or ast.Constant(-1)) == "order" and [norm_src(a) for a in at[0].args[:2]] == ["img", "mtx"]
         rep.ob("SLOT", f.anchor, "worker transforms the template with its matrix, zero fill, the simulator's spline order", ok, norm_src(at[0])[:100] if at else "",
